@@ -240,9 +240,9 @@ theorem tickDispatchers_inv (b : Bool) (caps : List (List Nat)) : ∀ (is : List
     · simp only [hf, if_true]; exact h
     · simp only [hf]; exact ih _ (dispTick_inv b caps cp i h)
 
-theorem handleLaunch_inv (b : Bool) (caps : List (List Nat)) (cp : CP) (h : CPInv b caps cp) :
-    CPInv b caps (handleLaunch cp).1 := by
-  unfold handleLaunch
+theorem handleLaunchOld_inv (b : Bool) (caps : List (List Nat)) (cp : CP) (h : CPInv b caps cp) :
+    CPInv b caps (handleLaunchOld cp).1 := by
+  unfold handleLaunchOld
   cases hdr : cp.drvIn with
   | nil => exact h
   | cons k rest =>
@@ -270,6 +270,21 @@ theorem handleLaunch_inv (b : Bool) (caps : List (List Nat)) (cp : CP) (h : CPIn
         have : (cp.disp i).alg.currWG = some (key, idx) := hc
         rw [hd.1] at this; cases this
 
+/-- raising the terminal fault "oversize" keeps the invariant (nothing else changes) -/
+theorem CPInv_rejected (b : Bool) (caps : List (List Nat)) (cp : CP) (h : CPInv b caps cp)
+    (hnt : cp.fault ≠ some "twice") : CPInv b caps cp.rejected :=
+  ⟨fun _ => h.pool hnt, h.disp, h.drv, fun _ => by simp [CP.rejected], h.res, h.cur, h.distinct⟩
+
+theorem handleLaunch_inv (b : Bool) (caps : List (List Nat)) (cp : CP) (h : CPInv b caps cp)
+    (hnt : cp.fault ≠ some "twice") : CPInv b caps (handleLaunch cp).1 :=
+  handleLaunch_ind cp (handleLaunchOld_inv b caps cp h) (CPInv_rejected b caps cp h hnt)
+
+theorem handleLaunch_not_twice (cp : CP) (hnt : cp.fault ≠ some "twice") :
+    (handleLaunch cp).1.fault ≠ some "twice" := by
+  rcases handleLaunch_fault cp with e | e <;> rw [e]
+  · exact hnt
+  · simp
+
 theorem cpTick_inv (b : Bool) (caps : List (List Nat)) (cp : CP) (h : CPInv b caps cp) :
     CPInv b caps (cpTick cp).1 := by
   have h1 := tickDispatchers_inv b caps (List.range cp.disps.length) cp h
@@ -277,7 +292,9 @@ theorem cpTick_inv (b : Bool) (caps : List (List Nat)) (cp : CP) (h : CPInv b ca
   by_cases hf : (tickDispatchers (List.range cp.disps.length) cp).1.fault.isSome = true
   · simp only [hf, if_true]; exact h1
   · simp only [hf]
-    exact handleLaunch_inv b caps _ (handleLaunch_inv b caps _ h1)
+    have hnt : (tickDispatchers (List.range cp.disps.length) cp).1.fault ≠ some "twice" := by
+      intro e; rw [e] at hf; simp at hf
+    exact handleLaunch_inv b caps _ (handleLaunch_inv b caps _ h1 hnt) (handleLaunch_not_twice _ hnt)
 
 theorem step_inv (b : Bool) (caps : List (List Nat)) (cp : CP) (op : Op) (h : CPInv b caps cp)
     (hop : ∀ k, op = .launch k → KernOK k) : CPInv b caps (step cp op) := by
